@@ -3,7 +3,7 @@
    ratio_scores, refpoint_scores, topsis_core, fmf_terms); the theorems below are
    the properties of those definitions that the statement relies on. *)
 From Coq Require Import QArith List Bool Arith.
-From SKC Require Import Base.QBool Base.QList Base.QRank Model.Dominance Model.Agg Theory.Agg.
+From SKC Require Import Base.QBool Base.QList Base.QRank Model.Dominance Model.Agg Theory.Agg Theory.MultiMoora.
 Import ListNotations.
 
 (* WSM refuses exactly a minimise objective or a negative cell *)
@@ -67,6 +67,27 @@ Theorem C04_similarity_refuses_iff : forall db dw,
   0 <= db -> 0 <= dw -> (similarity db dw = None <-> (db == 0 /\ dw == 0)).
 Proof. exact similarity_refuses_iff. Qed.
 Print Assumptions C04_similarity_refuses_iff.
+
+(* MultiMOORA: the rank matrix is the three component rankings side by side ... *)
+Theorem C04_multimoora_rank_matrix : forall r1 r2 r3 i,
+  length r1 = length r2 -> length r2 = length r3 -> (i < length r1)%nat ->
+  nth i (rank_matrix r1 r2 r3) [] = [nth i r1 0%nat; nth i r2 0%nat; nth i r3 0%nat].
+Proof. exact rank_matrix_rows. Qed.
+Print Assumptions C04_multimoora_rank_matrix.
+
+(* ... and the final score computed by the loop over index pairs is the documented pairwise-dominance
+   count: the number of alternatives it beats (no component ranks the two equal, ahead in more components) *)
+Theorem C04_multimoora_score_is_dominance_count : forall rm,
+  Forall (fun r => length r = 3%nat) rm -> mm_score rm = mm_spec rm.
+Proof. exact mm_score_is_spec. Qed.
+Print Assumptions C04_multimoora_score_is_dominance_count.
+
+Theorem C04_multimoora_one_point_per_untied_pair : forall ra rb, length ra = 3%nat -> length rb = 3%nat ->
+  ((if beats ra rb then 1 else 0) + (if beats rb ra then 1 else 0) =
+   (let '(e, _, _) := cmp_ranks ra rb in if Nat.eqb e 0 then 1 else 0))%nat.
+Proof. exact mm_points_per_pair. Qed.
+Print Assumptions C04_multimoora_one_point_per_untied_pair.
+
 
 Example C04_example :
   wsm [true; true] [1; 2] [[1; 2]; [3; 0]; [1; 2]] = Ok ([1; 2; 1]%nat, [1 * 1 + (2 * 2 + 0); 3 * 1 + (0 * 2 + 0); 1 * 1 + (2 * 2 + 0)]) /\
